@@ -34,6 +34,23 @@ def planted_input(rng: random.Random):
             x += rng.randint(2000, 2600)
         else:
             x += 2000 + int(rng.expovariate(1 / rng.choice([7500., 9000., 14000.])))
+    dense = None
+    if not near_start and rng.random() < 0.3:
+        # a label-dense stretch (a share of its gaps is 2-3.5 kb) inside a contig whose other gaps are long enough to
+        # keep the overall mean >= 9 kb: many seed candidates of similar height on the true strand
+        n = rng.randint(200, 300)
+        d0 = rng.randint(40, 110)
+        d1 = d0 + rng.randint(50, 90)
+        share = rng.choice([0.3, 0.45, 0.6])
+        x = rng.randint(5000, 20000)
+        xs = []
+        for k in range(n):
+            xs.append(x)
+            if d0 <= k < d1:
+                x += rng.randint(2000, 3500) if rng.random() < share else 2000 + int(rng.expovariate(1 / 9000.))
+            else:
+                x += rng.randint(9000, 30000)
+        dense = (d0, d1)
     while (xs[-1] - xs[0]) / (n - 1) < 9000:      # stretch the tail only, keeping every gap >= 2 kb
         xs = xs[:10] + [xs[9] + int((v - xs[9]) * 1.15) for v in xs[10:]]
     dx = pipecases.deci(xs, rng if rng.random() < 0.5 else None)
@@ -45,6 +62,8 @@ def planted_input(rng: random.Random):
         if n - w - 8 < 4:
             w = 15
         w0 = rng.choice([4, 4, 5, n - w - 4, rng.randint(4, n - w - 4), rng.randint(4, n - w - 4)])
+        if dense:
+            w0 = max(4, min(n - w - 4, rng.randint(dense[0] - 8, dense[1] - 10)))
         off = rng.choice([0, 7, 1234, 56789])
         tail = rng.choice([1, 15, 4000, 120000])
         rev = rng.random() < 0.5
@@ -58,7 +77,8 @@ def planted_input(rng: random.Random):
             truth = [[w0 + j + 1, j + 1] for j in range(w)]
         stored = [v + off * 10 for v in stored]
         qrys.append({"id": qid, "len": stored[-1] + tail * 10, "x": stored, "kind": "planted", "ref": ref["id"],
-                     "mirrored": rev, "truth": truth, "rev": rev})
+                     "mirrored": rev, "truth": truth, "rev": rev,
+                     "dense": list(dense) if dense else []})
         qid += rng.randint(1, 5)
     return {"refs": [ref], "qrys": qrys}
 
@@ -88,7 +108,8 @@ def one_input(args):
                               "rec": [pipe_common.rec_for_tla(r)] if r else [],
                               "shifts": shifts.get(q["id"], []),
                               "tag": {"input": idx, "mode": mode, "query": q["id"], "labels": len(q["x"]),
-                                      "ref_labels": len(inp["refs"][0]["x"])}})
+                                      "ref_labels": len(inp["refs"][0]["x"]), "dense_stretch": q["dense"],
+                                      "window_start": q["truth"][0][0]}})
     finally:
         shutil.rmtree(wd, ignore_errors=True)
     return {"status": status, "log": res["log"][-300:], "lines": lines}
@@ -107,7 +128,7 @@ def run(ctx: Ctx):
     mc = tlc.run_tlc("MC_Planted", "MC_Planted.cfg", ctx.workdir, workers=6, heap_gb=8)
     ctx.add_model("MC_Planted", mc)
     ctx.notes["what_is_exhaustive"] = "only the discrete lemma (MC_Planted); the numerical seeding is sampled"
-    n = 30 if quick else 1500
+    n = int(os.environ.get("C06_N", "0")) or (30 if quick else 1500)
     with mp.get_context("fork").Pool(min(14, n)) as pool:
         results = pool.map(one_input, [(ctx.seed * 37 + 6, i, ctx.workdir) for i in range(n)])
     lines = []
